@@ -17,7 +17,13 @@ pub mod choice;
 pub mod hooks;
 
 pub mod wire;
+pub mod rig;
+pub mod frontend;
+pub mod rscript;
 
+pub mod c01_reader;
+pub mod c03_acknack;
+pub mod c05_frag;
 pub mod c10_qos;
 pub mod c14_msg;
 
@@ -134,6 +140,9 @@ pub struct ExhaustiveReport {
 
 pub fn registry() -> Vec<Property> {
   let mut v = Vec::new();
+  v.push(c01_reader::property());
+  v.push(c03_acknack::property());
+  v.push(c05_frag::property());
   v.push(c10_qos::property());
   v.push(c14_msg::property());
   v
